@@ -1501,6 +1501,10 @@ impl Interp {
         let may_e = self.any_esave();
         let has_r = self.any_reader();
         let before_len = self.backend.lock().data.len();
+        let (alloc_before, total_before) = {
+            let db = self.db.as_ref().ok_or("harness: no db")?;
+            (crate::account::allocated_set(db).map(|v| v.len()).unwrap_or(0), crate::account::total_pages(db).map(|v| v.len()).unwrap_or(0))
+        };
         let db = self.db.as_mut().ok_or("harness: no db")?;
         let calls_before = self.backend.calls();
         let r = db.compact();
@@ -1530,7 +1534,13 @@ impl Interp {
                 self.last_commit_durable = true;
                 let after_len = self.backend.lock().data.len();
                 if after_len > before_len {
-                    return Err(format!("compact() grew the file from {before_len} to {after_len} bytes"));
+                    let free = total_before.saturating_sub(alloc_before);
+                    // two classes, so that a known finding about full files cannot hide growth of
+                    // a file that had room to compact into
+                    let class = if free * 8 < total_before { "a nearly full file (less than 1/8 of its pages free)" } else { "a file with free space" };
+                    return Err(format!(
+                        "compact() grew {class}: {before_len} -> {after_len} bytes; {free} of {total_before} pages were free before the call"
+                    ));
                 }
                 let pages = (before_len / self.cfg.page_size).max(1) as u64;
                 if calls > 400 * pages + 100_000 {
